@@ -1,28 +1,31 @@
-"""Generic check runner: proof obligations + correspondence + oracle + verdict, driven by a Spec."""
+"""Generic check runner: proof obligations + correspondence + oracle + verdict, driven by a Spec.
+
+A Spec (one per property) names the Lean modules holding its theorems and one or more Parts.
+A Part ties one model driver (lean exe + sub-command) to one C++ harness with a generator of
+operation histories and a property oracle on implementation traces.  A Spec with no explicit
+parts is its own single part.
+"""
 import os, sys, json, random, time, glob
 from . import core
 from .core import log
 
 
-class Spec:
-    pid = "C00"
-    props_modules = []          # Lean modules holding ONLY the property theorems
+class Part:
+    name = "main"
     harness = None              # harness/<name>.cpp
     harness_args = ()
-    family = None               # dsmodel sub-command
-    trusted_base = []
-    assumptions = []
-    rule = ""
+    model_exe = None            # lean exe name (lakefile), e.g. "dsmodel_theta"
+    family = None               # sub-command of the model exe
     cmp = None                  # optional line comparator (x, y) -> bool
     timeout = 120
-    level = "proof"
+    compare_model = True        # False: oracle-only part (no model output comparison)
 
     def generate(self, rng, tier):
         """-> list of histories (list of op lines)."""
         return []
 
     def search_histories(self, rng, tier, around=None):
-        """extra histories for the failing-input search (default: fresh seeds of generate)."""
+        """extra histories for the failing-input search (default: fresh draws of generate)."""
         return self.generate(rng, tier)
 
     def oracle(self, hist, impl_out):
@@ -33,39 +36,50 @@ class Spec:
         """hashable signature of a history if non-trivial, else None (for distinct_nontrivial)."""
         return None
 
-    def extra_stages(self, rep, tier, rng):
-        """property-specific additional stages (translator ties etc). may call rep.violation."""
+    def safety_is_violation(self, outcome):
+        """sanitizer/timeout/crash outcomes of the real code under valid API use count as failing inputs."""
+        return True
+
+
+class Spec(Part):
+    pid = "C00"
+    props_modules = []          # Lean modules holding ONLY the property theorems
+    tfamilies = []              # translator families (tools/trules/<f>.py) this property depends on
+    trusted_base = []
+    assumptions = []
+    rule = ""
+    level = "proof"
+
+    def parts(self):
+        return [self]
+
+    def extra_stages(self, rep, tier, rng, broken):
+        """property-specific additional stages (translator ties etc). may append to `broken` or call rep.violation."""
         return
 
-    def replay_family(self, hdr):
-        return self.family, self.harness_args
 
-
-def safe_oracle(spec, h, io, strict=False):
+def safe_oracle(part, h, io):
     try:
-        return spec.oracle(h, io)
+        return part.oracle(h, io)
     except Exception as e:
-        if strict:
-            raise
         return []
 
 
-def _run_one(spec, exe, hist, model=True, family=None, hargs=None):
-    fam = family or spec.family
-    hargs = spec.harness_args if hargs is None else hargs
-    io, ioc, ierr = core.run_impl(exe, hist, hargs, timeout=spec.timeout)
-    if model:
-        mo, moc, merr = core.run_model(fam, hist, timeout=spec.timeout)
+def _run_one(part, exe, hist, model=True):
+    io, ioc, ierr = core.run_impl(exe, hist, part.harness_args, timeout=part.timeout)
+    if model and part.compare_model and part.model_exe:
+        mo, moc, merr = core.run_model(part.model_exe, part.family, hist, timeout=part.timeout)
     else:
         mo, moc, merr = [], "skipped", ""
     return io, ioc, ierr, mo, moc, merr
 
 
-def corpus_histories(pid):
+def corpus_histories(pid, partname):
     res = []
     for f in sorted(glob.glob(os.path.join(core.ROOT, "corpus", "regress", pid, "*.txt"))):
         hdr, lines = core.read_replay(f)
-        res.append((os.path.relpath(f, core.ROOT), hdr, lines))
+        if hdr.get("part", "main") == partname:
+            res.append((os.path.relpath(f, core.ROOT), hdr, lines))
     return res
 
 
@@ -75,17 +89,23 @@ def run_check(spec, tier, seed, replay=None):
     rep.cov["trusted_base"] = list(spec.trusted_base)
     rep.assumptions = list(spec.assumptions)
     rep.cov["rule"] = spec.rule
-    rep.cov["checker_cmd"] = "cd lean && lake build %s dsmodel && lake env lean <#print axioms file>" % " ".join(spec.props_modules)
+    parts = spec.parts()
+    exes = sorted(set(p.model_exe for p in parts if p.model_exe))
+    rep.cov["checker_cmd"] = "cd lean && lake build %s && lake env lean <file with `#print axioms` for every theorem>" % " ".join(spec.props_modules + exes)
     broken = []      # (kind, name, detail)
 
-    # ---- stage 0: translator + model driver
-    ok, tlog = core.translate()
-    if not ok:
-        broken.append(("translator", "tools/translate.py", tlog[-3000:]))
-    ok, out, dt = core.lake_build(["dsmodel"])
-    model_ok = ok
-    if not ok:
-        broken.append(("model-build", "dsmodel", out[-3000:]))
+    # ---- stage 0: translator (only this property's families) + model drivers
+    tstatus = core.translate()
+    for fam in spec.tfamilies:
+        st = tstatus.get(fam)
+        if st is None or not st.get("ok"):
+            broken.append(("translator", "tools/trules/%s.py" % fam, "\n".join((st or {}).get("errors", ["family missing"]))[-3000:]))
+    model_ok = {}
+    for e in exes:
+        ok, out, dt = core.lake_build([e])
+        model_ok[e] = ok
+        if not ok:
+            broken.append(("model-build", e, out[-3000:]))
 
     # ---- stage 1: proof obligations
     required, discharged, axioms = [], [], {}
@@ -101,157 +121,180 @@ def run_check(spec, tier, seed, replay=None):
     rep.cov["theorems"] = discharged
     rep.cov["axioms_used"] = sorted(set(a for v in axioms.values() for a in v))
 
-    # ---- stage 0b: harness
-    exe = None
-    if spec.harness:
-        ok, exe, hlog = core.compile_harness(spec.harness)
-        if not ok:
-            broken.append(("harness-build", spec.harness, hlog[-3000:]))
-            exe = None
+    # ---- stage 0b: harnesses
+    hexe = {}
+    for p in parts:
+        if p.harness and p.harness not in hexe:
+            ok, exe, hlog = core.compile_harness(p.harness)
+            hexe[p.harness] = exe if ok else None
+            if not ok:
+                broken.append(("harness-build", p.harness, hlog[-3000:]))
 
     # ---- property-specific stages (translator tie, table obligations ...)
-    try:
-        spec.extra_stages(rep, tier, rng, broken)
-    except TypeError:
-        spec.extra_stages(rep, tier, rng)
+    spec.extra_stages(rep, tier, rng, broken)
 
     # ---- replay mode
     if replay:
         hdr, lines = core.read_replay(replay)
+        part = next((p for p in parts if p.name == hdr.get("part", "main")), parts[0])
+        exe = hexe.get(part.harness)
         if exe is None or not lines:
-            print("replay: nothing to run (kind=%s)" % hdr.get("kind"))
-            for b in broken:
-                print("still-broken %s %s" % (b[0], b[1]))
-            return rep_finish_replay(rep, broken, hdr)
-        fam, hargs = spec.replay_family(hdr)
-        io, ioc, ierr, mo, moc, merr = _run_one(spec, exe, lines, model_ok, fam, hargs)
-        bad = spec.oracle(lines, io) if ioc == "ok" else [("safety:" + ioc, ierr[-500:], len(io))]
-        d = core.first_diff(io, mo, spec.cmp) if model_ok else None
+            print("replay: nothing to execute (kind=%s theorem=%s)" % (hdr.get("kind"), hdr.get("theorem")))
+            for kind, name, detail in broken:
+                print("still-broken %s %s" % (kind, name))
+                rep.violation("%s:%s" % (kind, name), dict(kind=kind, theorem=name, detail=detail[-1500:]), [], False, "%s %s no longer checks" % (kind, name))
+            if not broken:
+                print("replay: the obligations named in the file check again")
+            return rep.finish(write_evidence=False)
+        mok = model_ok.get(part.model_exe, False)
+        io, ioc, ierr, mo, moc, merr = _run_one(part, exe, lines, mok)
+        bad = safe_oracle(part, lines, io) if ioc == "ok" else [("safety:" + ioc, ierr[-500:], len(io))]
+        d = core.first_diff(io, mo, part.cmp) if (mok and part.compare_model and moc == "ok") else None
         for key, what, idx in bad:
-            print("replay: oracle fails at line %d: %s %s" % (idx, key, what))
-            rep.violation(key, dict(kind="oracle"), lines, True, what)
+            print("replay: property fails at op %d: %s %s" % (idx, key, what))
+            rep.violation(key, dict(kind="oracle", part=part.name), lines, True, what)
         if d is not None:
             print("replay: model/impl diverge at op %d: impl=%r model=%r" % (d, io[d] if d < len(io) else None, mo[d] if d < len(mo) else None))
             if not bad:
-                rep.violation("correspondence", dict(kind="correspondence"), lines, False, "diverge at op %d" % d)
+                rep.violation("correspondence", dict(kind="correspondence", part=part.name), lines, False, "diverge at op %d" % d)
         if not bad and d is None:
             print("replay: passes (model == implementation, oracle clean)")
         return rep.finish(write_evidence=False)
 
-    # ---- stage 3+4: correspondence and oracle
-    hists = []
-    for path, hdr, lines in corpus_histories(spec.pid):
-        hists.append(("corpus:" + path, lines))
-    gen = spec.generate(rng, tier) if exe else []
-    for i, h in enumerate(gen):
-        hists.append(("gen:%d" % i, h))
-
-    mismatches = []   # (name, hist, idx, impl_line, model_line)
-    oracle_fail = []  # (name, hist, key, what, idx)
+    # ---- stage 3+4: correspondence and oracle, per part
+    tot = dict(evaluations=0, ops=0, validated=0, mism=0)
     keys = set()
-    nops = 0
-
-    def work(item):
-        name, h = item
-        return (name, h) + _run_one(spec, exe, h, model_ok)
-
-    results = core.pmap(work, hists) if exe else []
-    opkinds = {}
-    outcomes = {}
-    for name, h, io, ioc, ierr, mo, moc, merr in results:
-        nops += len(h)
-        for l in h:
-            k = l.split()[0] if l.split() else ""
-            opkinds[k] = opkinds.get(k, 0) + 1
-        outcomes[ioc] = outcomes.get(ioc, 0) + 1
-        if ioc != "ok":
-            oracle_fail.append((name, h, "safety:%s" % ioc, "implementation outcome %s after %d ops: %s" % (ioc, len(io), ierr[-600:]), len(io)))
+    opkinds, outcomes = {}, {}
+    samples = []
+    all_mismatches = []   # (part, name, hist, idx, impl_line, model_line)
+    all_oracle_fail = []  # (part, name, hist, key, what, idx)
+    for part in parts:
+        exe = hexe.get(part.harness)
+        if exe is None:
             continue
-        for key, what, idx in spec.oracle(h, io):
-            oracle_fail.append((name, h, key, what, idx))
-        if model_ok:
-            if moc != "ok":
-                mismatches.append((name, h, len(mo), "<model %s>" % moc, merr[-300:]))
-            else:
-                d = core.first_diff(io, mo, spec.cmp)
-                if d is not None:
-                    mismatches.append((name, h, d, io[d] if d < len(io) else "<missing>", mo[d] if d < len(mo) else "<missing>"))
-        nk = spec.nontrivial_key(h, io)
-        if nk is not None:
-            keys.add(nk)
-    rep.cov["evaluations"] = len(results)
-    rep.cov["ops"] = nops
+        mok = model_ok.get(part.model_exe, False) if part.model_exe else False
+        hists = [("corpus:" + path, lines) for path, hdr, lines in corpus_histories(spec.pid, part.name)]
+        for i, h in enumerate(part.generate(rng, tier)):
+            hists.append(("gen:%s:%d" % (part.name, i), h))
+
+        def work(item, part=part, exe=exe, mok=mok):
+            name, h = item
+            return (name, h) + _run_one(part, exe, h, mok)
+
+        results = core.pmap(work, hists)
+        mism_names = set()
+        for name, h, io, ioc, ierr, mo, moc, merr in results:
+            tot["ops"] += len(h)
+            for l in h:
+                w = l.split()
+                k = w[0] if w else ""
+                opkinds[k] = opkinds.get(k, 0) + 1
+            outcomes[ioc] = outcomes.get(ioc, 0) + 1
+            if ioc != "ok":
+                if part.safety_is_violation(ioc):
+                    all_oracle_fail.append((part, name, h, "safety:%s" % ioc,
+                                            "implementation outcome %s after %d ops: %s" % (ioc, len(io), ierr[-600:]), len(io)))
+                continue
+            for key, what, idx in part.oracle(h, io):
+                all_oracle_fail.append((part, name, h, key, what, idx))
+            if mok and part.compare_model:
+                if moc != "ok":
+                    all_mismatches.append((part, name, h, len(mo), "<impl ok>", "<model %s> %s" % (moc, merr[-300:])))
+                    mism_names.add(name)
+                else:
+                    d = core.first_diff(io, mo, part.cmp)
+                    if d is not None:
+                        all_mismatches.append((part, name, h, d, io[d] if d < len(io) else "<missing>", mo[d] if d < len(mo) else "<missing>"))
+                        mism_names.add(name)
+            nk = part.nontrivial_key(h, io)
+            if nk is not None:
+                keys.add((part.name, nk))
+        tot["evaluations"] += len(results)
+        tot["validated"] += sum(1 for r in results if r[3] == "ok" and r[0] not in mism_names) if (mok and part.compare_model) else 0
+        samples += [dict(part=part.name, ops=h[:10]) for _, h in hists[:1]] + [dict(part=part.name, ops=h[:10]) for _, h in hists[-1:]]
+    rep.cov["evaluations"] = tot["evaluations"]
+    rep.cov["ops"] = tot["ops"]
     rep.cov["op_kinds"] = opkinds
     rep.cov["impl_outcomes"] = outcomes
     rep.cov["distinct_nontrivial"] = len(keys)
-    rep.cov["traces_validated_against_impl"] = sum(1 for r in results if r[3] == "ok") - len(set(m[0] for m in mismatches))
-    rep.cov["samples"] = [h[:12] for _, h in hists[:2]] + [h[:12] for _, h in hists[-1:]]
-    rep.cov["correspondence_mismatches"] = len(mismatches)
+    rep.cov["traces_validated_against_impl"] = tot["validated"]
+    rep.cov["samples"] = samples[:6] or [dict(note="no histories (harness unavailable)")]
+    rep.cov["correspondence_mismatches"] = len(all_mismatches)
 
     # ---- stage 5: verdict
-    def shrink_oracle(h, key):
+    def shrink_oracle(part, h, key):
+        exe = hexe[part.harness]
+
         def fails(c):
-            io, ioc, ierr = core.run_impl(exe, c, spec.harness_args, timeout=spec.timeout)
+            io, ioc, ierr = core.run_impl(exe, c, part.harness_args, timeout=part.timeout)
             if key.startswith("safety:"):
                 return ioc == key.split(":", 1)[1]
-            return ioc == "ok" and any(k == key for k, _, _ in safe_oracle(spec, c, io))
-        return core.ddmin(h, fails, budget=120 if tier == "quick" else 400)
+            return ioc == "ok" and any(k == key for k, _, _ in safe_oracle(part, c, io))
+        return core.ddmin(h, fails, budget=100 if tier == "quick" else 400)
 
     done_keys = set()
-    for name, h, key, what, idx in oracle_fail:
+    for part, name, h, key, what, idx in all_oracle_fail:
         if key in done_keys:
             continue
         done_keys.add(key)
-        small = shrink_oracle(h[:idx + 1] if not key.startswith("safety:") else h, key)
-        rep.violation(key, dict(kind="oracle" if not key.startswith("safety:") else "safety", source=name), small, True, what)
+        if rep.is_known(key):
+            rep.violation(key, {}, [], True, what)
+            continue
+        small = shrink_oracle(part, h[:idx + 1] if not key.startswith("safety:") else h, key)
+        rep.violation(key, dict(kind="oracle" if not key.startswith("safety:") else "safety", source=name, part=part.name), small, True, what)
 
-    if (broken or mismatches) and not oracle_fail:
+    new_oracle_fail = [x for x in all_oracle_fail if not rep.is_known(x[3])]
+    if (broken or all_mismatches) and not new_oracle_fail:
         # SEARCH for a concrete failing input: more histories through implementation + oracle only
         found = None
-        if exe:
-            budget_s = 60 if tier == "quick" else 600
-            t0 = time.time()
-            rounds = 0
-            # neighbourhood of the diverging histories first
-            cands = [h for _, h, *_ in mismatches]
-            while time.time() - t0 < budget_s and found is None and rounds < 40:
-                rounds += 1
-                more = spec.search_histories(rng, tier, around=cands)
+        budget_s = 60 if tier == "quick" else 600
+        t0 = time.time()
+        rounds = 0
+        sparts = [m[0] for m in all_mismatches] or parts
+        while time.time() - t0 < budget_s and found is None and rounds < 30:
+            rounds += 1
+            any_hist = False
+            for part in dict.fromkeys(sparts):
+                exe = hexe.get(part.harness)
+                if exe is None:
+                    continue
+                more = part.search_histories(rng, tier, around=[m[2] for m in all_mismatches if m[0] is part])
                 if not more:
-                    break
+                    continue
+                any_hist = True
 
-                def w2(h):
-                    io, ioc, ierr = core.run_impl(exe, h, spec.harness_args, timeout=spec.timeout)
+                def w2(h, part=part, exe=exe):
+                    io, ioc, ierr = core.run_impl(exe, h, part.harness_args, timeout=part.timeout)
                     if ioc != "ok":
-                        return (h, "safety:" + ioc, ierr[-400:], len(io))
-                    for key, what, idx in safe_oracle(spec, h, io):
-                        return (h, key, what, idx)
+                        return (part, h, "safety:" + ioc, ierr[-400:], len(io)) if part.safety_is_violation(ioc) else None
+                    for key, what, idx in safe_oracle(part, h, io):
+                        if not rep.is_known(key):
+                            return (part, h, key, what, idx)
                     return None
                 for r in core.pmap(w2, more):
                     if r is not None:
                         found = r
                         break
-            rep.cov["search_rounds"] = rounds
+                if found:
+                    break
+            if not any_hist:
+                break
+        rep.cov["search_rounds"] = rounds
         if found is not None:
-            h, key, what, idx = found
-            small = shrink_oracle(h[:idx + 1] if not key.startswith("safety:") else h, key)
-            rep.violation(key, dict(kind="oracle", source="search"), small, True, what)
+            part, h, key, what, idx = found
+            small = shrink_oracle(part, h[:idx + 1] if not key.startswith("safety:") else h, key)
+            rep.violation(key, dict(kind="oracle", source="search", part=part.name), small, True, what)
         else:
             for kind, name, detail in broken:
                 rep.violation("%s:%s" % (kind, name), dict(kind=kind, theorem=name, detail=detail[-1500:]), [], False,
                               "%s %s no longer checks" % (kind, name))
-            for name, h, d, il, ml in mismatches[:3]:
-                def fails(c, _cmp=spec.cmp):
-                    io, ioc, _, mo, moc, _ = _run_one(spec, exe, c, True)
-                    return ioc == "ok" and moc == "ok" and core.first_diff(io, mo, _cmp) is not None
+            for part, name, h, d, il, ml in all_mismatches[:1]:
+                exe = hexe[part.harness]
+
+                def fails(c, part=part, exe=exe):
+                    io, ioc, _, mo, moc, _ = _run_one(part, exe, c, True)
+                    return ioc == "ok" and moc == "ok" and core.first_diff(io, mo, part.cmp) is not None
                 small = core.ddmin(h[:d + 1], fails, budget=80)
-                rep.violation("correspondence", dict(kind="correspondence", source=name, op_index=d, impl=il[:300], model=ml[:300]),
+                rep.violation("correspondence", dict(kind="correspondence", source=name, part=part.name, op_index=d, impl=il[:300], model=ml[:300]),
                               small, False, "model and implementation diverge (op %d of %s)" % (d, name))
-                break
     return rep.finish()
-
-
-def rep_finish_replay(rep, broken, hdr):
-    for kind, name, detail in broken:
-        rep.violation("%s:%s" % (kind, name), dict(kind=kind, theorem=name, detail=detail[-1500:]), [], False, "%s %s no longer checks" % (kind, name))
-    return rep.finish(write_evidence=False)
